@@ -109,7 +109,13 @@ def main():
         ],
         checks=checks,
         not_applicable=na,
-        notes="Model-based verification with an explicit TLA+ specification (spec/), see DESIGN.md. Exit 2 of a check means machinery failure, never a verdict.",
+        notes="Model-based verification with an explicit TLA+ specification (spec/), see DESIGN.md (section 11: as built). Exit 2 of a check means machinery failure, never a verdict. "
+              "--replay re-executes the stored case on the current tree. VERIF_SEED selects the seed (default 1). "
+              "Known findings: known_findings.json. Beyond the listed properties (conformance only, never a VIOLATION): "
+              "./check X_CLI (CliRules.tla against the real command-line parser, evidence in conformance/), Trace_Run clauses Aux.* "
+              "(--rest-file / --wildcard-file). ./check --selftest demonstrates the binding (corrupted observations are rejected). "
+              "Development tools (not checks): harness/all_mutants.py (seeded/ changes must be detected), harness/all_benign.sh "
+              "(benign/ changes must not raise an alarm).",
     )
     with open(os.path.join(VERIF, "MANIFEST.json"), "w") as f:
         json.dump(m, f, indent=1)
